@@ -1,6 +1,7 @@
 CONSTANTS NTests = 2 Deviations = {"RestoreOnlyOwnBuffer"} PreChoices = {"none"}
 CONSTANTS OptUniverse = {"gc", "G", "coverage", "profile", "buffer", "warnings", "D", "x"}
 CONSTANTS PreDebugChoices = {{}} GChoices = {{"DEBUG_UNCOLLECTABLE"}} V4Choices = {TRUE}
+CONSTANTS NestChoices = {FALSE} InnerOptUniverse = {} InnerEndings = {} MaxNest = 0
 SPECIFICATION Spec
 INVARIANT Restored
 INVARIANT HooksRestored
